@@ -57,6 +57,11 @@ def check(ctx):
                consequence="pint raises DimensionalityError at run time, or a scale carries the wrong dimension")
         return
     P = phys(ip)
+    # a scale the lenient evaluation could not compute (an idiom outside the unit model) is not a wrong scale: say so
+    for nm_ in ("A_scale", "areas", "sites", "edge_centers"):
+        v_ = me.attrs.get(nm_)
+        if isinstance(v_, Opaque) and "unsupported" in str(getattr(v_, "desc", v_)):
+            raise AnalysisError(f"TDGLSolver.__init__: self.{nm_} is outside the unit model ({str(getattr(v_, 'desc', v_))[:160]})")
     # -- scales in the solver ----------------------------------------------------------
     a_scale = me.attrs.get("A_scale")
     want = 2 * ip.pi * P["xi_p"] * ip.kB * ip.kL / ip.Phi0
